@@ -230,6 +230,8 @@ def check(ctx):
 
     for (f, n, base, ext, idx, itv, kind) in special:
         ok, rule, why = _named(ctx, p, f, n, base, ext, idx, itv, kind, maxm, stack)
+        if not ok and rule == 'unclassified' and p.is_new_function(f):
+            raise AnalysisBroken('C10: subscript %s[...] at %s is in code the reference tree did not have and no rule classifies it' % (base, f.loc(n)))
         key = '%s%s:%s[%s]' % (short(f.name), '<%s>' % short(f.targs) if f.targs else '', base, canon(f, idx, inline=False))
         ctx.ob('C10.BUF.' + rule, key, ok,
                '%s (index interval [%s,%s], extent %s)' % (why, itv[0], itv[1], ext), site=f.loc(n))
@@ -242,6 +244,8 @@ def check(ctx):
             continue
         seen_h.add(key)
         ok, rule, why = _heap_rule(ctx, p, f, n, base, idx, itv, kind)
+        if not ok and rule in ('vector', 'string', 'container') and p.is_new_function(f):
+            raise AnalysisBroken('C10: subscript %s[...] at %s is in code the reference tree did not have and no rule classifies it' % (base, f.loc(n)))
         ctx.ob('C10.HEAP.' + rule, key, ok, '%s (index interval [%s,%s])' % (why, itv[0], itv[1]), site=f.loc(n),
                sample=(rule not in ('map',) or not ok))
 
